@@ -424,6 +424,10 @@ def fresh_like(v, name):
     if isinstance(v, SeqV):
         return SeqV(fresh(name + ".arr", v.arr.sort()), fresh(name + ".n", I), v.elem)
     if isinstance(v, ListV):
+        if all(z3.is_true(z3.simplify(g)) for g, _ in v.items):
+            # a list of fixed shape: the elements change, the length does not (a loop that appends is still rejected:
+            # its invariants could not speak about the new elements)
+            return ListV((g, fresh_like(x, f"{name}[{i}]")) for i, (g, x) in enumerate(v.items))
         raise Unsupported(f"list {name} modified inside a loop that is cut by an invariant")
     if isinstance(v, (ClsV, FuncV, ChoiceV)):
         return v
